@@ -67,21 +67,21 @@ type c09Call struct {
 }
 
 type c09Case struct {
-	Kind      string     `json:"kind"` // pregel|dag|workflow|chain|nested|checkpoint|react|host|wfstraggler|optshare|toollist
+	Kind      string       `json:"kind"`          // pregel|dag|workflow|chain|nested|checkpoint|react|host|wfstraggler|optshare|toollist
 	Opt       *c09OptShare `json:"opt,omitempty"` // optshare (c09_opts.go)
 	TL        *c09ToolList `json:"tl,omitempty"`  // toollist (c09_opts.go)
-	Layers    []c09Layer `json:"layers,omitempty"`
-	NestFrom  int        `json:"nestFrom,omitempty"` // nested: layers[NestFrom:NestTo] form the inner graph
-	NestTo    int        `json:"nestTo,omitempty"`
-	IntLayer  int        `json:"intLayer,omitempty"` // checkpoint: interrupt before the first node of this layer
-	Calls     []c09Call  `json:"calls"`
-	Reps      int        `json:"reps"`
-	SharedOpt bool       `json:"sharedOpt,omitempty"` // one option slice value shared by all callers
-	ParentCB  bool       `json:"parentCB,omitempty"`  // callers derive their ctx from one parent ctx that carries a handler
-	ParentCap int        `json:"parentCap,omitempty"` // parentCB: number of handlers in the parent ctx, passed as a slice built with append (so it may have spare capacity)
-	Par       int        `json:"par,omitempty"`       // wfstraggler: number of parallel nodes (2|3)
-	Sched     []int      `json:"sched,omitempty"`     // interleaving given to the model
-	Seed      uint64     `json:"seed"`
+	Layers    []c09Layer   `json:"layers,omitempty"`
+	NestFrom  int          `json:"nestFrom,omitempty"` // nested: layers[NestFrom:NestTo] form the inner graph
+	NestTo    int          `json:"nestTo,omitempty"`
+	IntLayer  int          `json:"intLayer,omitempty"` // checkpoint: interrupt before the first node of this layer
+	Calls     []c09Call    `json:"calls"`
+	Reps      int          `json:"reps"`
+	SharedOpt bool         `json:"sharedOpt,omitempty"` // one option slice value shared by all callers
+	ParentCB  bool         `json:"parentCB,omitempty"`  // callers derive their ctx from one parent ctx that carries a handler
+	ParentCap int          `json:"parentCap,omitempty"` // parentCB: number of handlers in the parent ctx, passed as a slice built with append (so it may have spare capacity)
+	Par       int          `json:"par,omitempty"`       // wfstraggler: number of parallel nodes (2|3)
+	Sched     []int        `json:"sched,omitempty"`     // interleaving given to the model
+	Seed      uint64       `json:"seed"`
 }
 
 // one observed call
@@ -95,7 +95,7 @@ type c09Obs struct {
 type c09ChildOut struct {
 	BuildErr string     `json:"buildErr,omitempty"`
 	Alone    []c09Obs   `json:"alone"`
-	Conc     [][]c09Obs `json:"conc"` // [call][rep]
+	Conc     [][]c09Obs `json:"conc"`             // [call][rep]
 	AloneR   [][]c09Obs `json:"aloneR,omitempty"` // optshare / toollist: the sequential reference of every (call, wave)
 }
 
